@@ -13,6 +13,6 @@ CONSTANTS NA = 1
           KeepHist = FALSE
           HistLen = 0
           TxEvery = 1
-INVARIANTS MechanismIsNetDiff InvBAL InvFunctional InvFeasible InvFrames
+INVARIANTS MechanismIsNetDiff InvBAL InvFunctional InvFeasible InvFrames InvNoEmpty
 VIEW View
 CHECK_DEADLOCK FALSE
